@@ -5,7 +5,7 @@ CONSTANTS
  r1 = r1
  r2 = r2
  x = x
- Node = {o, o2, r1, x}
+ Node = {o, r1, x}
  Adv = adv
  Flags <- FlagsDef
  Cands <- CandsSmall
@@ -15,12 +15,12 @@ CONSTANTS
  Tries = 2
  NextHop = 4 Unstable = 24 CacheTO = 4 Inactive = 8 RemoveDelay = 2 SweepEvery = 2 PingEvery = 3 MaxTime = 1000
  CreateGuard = TRUE
- MaxCircuits = 2 MaxData = 2 MaxLoss = 1 MaxDup = 0 MaxAdv = 1 MaxNow = 0
- Goals = {1}
- Origins = {o, o2}
- AdvKinds = {"create", "destroy"}
+ MaxCircuits = 1 MaxData = 0 MaxLoss = 0 MaxDup = 1 MaxAdv = 0 MaxNow = 0
+ Goals = {1, 2}
+ Origins = {o}
+ AdvKinds = {}
  NodeRank <- RankDef
- AdvSrcs = {adv, x}
+ AdvSrcs = {adv}
  TrackWire = FALSE
  UseIds = FALSE
  NodeTeardown = FALSE
@@ -31,15 +31,12 @@ CONSTANTS
  Aead = TRUE
  CheckIdent = TRUE
  RelayOnce = TRUE
- SuspendJoin = FALSE
- JoinCacheFirst = TRUE
+ SuspendJoin = TRUE
+ JoinCacheFirst = FALSE
  AutoTimers = TRUE
 INVARIANT TypeOK
 INVARIANT PathAgreement
-INVARIANT NoShadow
-INVARIANT ExitOnlyOwn
-INVARIANT ReturnIntegrity
-INVARIANT ExitIntegrity
+INVARIANT NoForeignKey
+INVARIANT KeyAgreement
+PROPERTY AnswerMustMatch
 PROPERTY EntriesStable
-PROPERTY DestroyOnlyFromNeighbour
-PROPERTY UnknownCellsInert
